@@ -458,12 +458,18 @@ func TestVerif_C10_CodecSelfTest(t *testing.T) {
 			continue
 		}
 		d := c10DecodeChain(c10EncodeChain(c))
-		d.Note = c.Note
+		if !bytes.Equal(d.Body, c.Body) {
+			t.Fatalf("harness: chain codec does not round-trip the body of %s", c.Note)
+		}
+		d.Note, d.Body, c.Body = c.Note, nil, nil
 		if d.Status == 200 && c.Status == 0 {
 			d.Status = 0
 		}
+		if c.NoCT {
+			c.CT = ""
+		}
 		if veriflib.JSON(d) != veriflib.JSON(c) {
-			t.Fatalf("harness: chain codec does not round-trip:\n in  %.300s\n out %.300s", veriflib.JSON(c), veriflib.JSON(d))
+			t.Fatalf("harness: chain codec does not round-trip:\n in  %s\n out %s", veriflib.JSON(c), veriflib.JSON(d))
 		}
 	}
 }
